@@ -95,11 +95,11 @@ def build_harness():
 
 
 # source file of the harness -> cargo feature
-HARNESS_FEATURES = {"ir_export": "ir", "names_cmd": "names", "query_cmd": "query", "hir_cmd": "hir", "ast_export": "asttrees"}
+HARNESS_FEATURES = {"ir_export": "ir", "names_cmd": "names", "query_cmd": "query", "hir_cmd": "hir", "ast_export": "asttrees", "web_cmd": "web"}
 
 
 def _need_for(cmd, requests):
-    if cmd in ("names", "query", "hir"):
+    if cmd in ("names", "query", "hir", "web"):
         need_feature(cmd)
     elif cmd == "parse" and any(r.get("mode", "ast") == "ast" for r in requests[:50]):
         need_feature("asttrees")
